@@ -400,19 +400,70 @@ def run_case(case):
     return out
 
 
+def run_forked(fn, case, timeout):
+    """run fn(case) in a forked child (fresh copy of the freshly imported interpreter for every case, hard
+    wall-clock limit: sympy can block inside C code where signals are not delivered)"""
+    import os
+    import select
+    r, w = os.pipe()
+    t0 = time.time()
+    pid = os.fork()
+    if pid == 0:
+        os.close(r)
+        try:
+            try:
+                res = fn(case)
+            except Exception:  # noqa
+                res = {"crash": traceback.format_exc()[-1500:]}
+            data = json.dumps(res).encode()
+            with os.fdopen(w, "wb") as f:
+                f.write(data)
+        finally:
+            os._exit(0)
+    os.close(w)
+    chunks = []
+    deadline = t0 + timeout
+    timed_out = False
+    while True:
+        left = deadline - time.time()
+        if left <= 0:
+            timed_out = True
+            break
+        ready, _, _ = select.select([r], [], [], min(left, 1.0))
+        if ready:
+            b = os.read(r, 1 << 16)
+            if not b:
+                break
+            chunks.append(b)
+    os.close(r)
+    if timed_out:
+        try:
+            os.kill(pid, 9)
+        except OSError:
+            pass
+    os.waitpid(pid, 0)
+    if timed_out:
+        return {"stage": "timeout", "secs": round(time.time() - t0, 2)}
+    try:
+        res = json.loads(b"".join(chunks).decode())
+    except Exception:  # noqa
+        res = {"crash": "child returned no result"}
+    res["secs"] = round(time.time() - t0, 2)
+    return res
+
+
+def warm_up():
+    import sympy  # noqa
+    import sympde.expr.expr  # noqa
+    import sympde.expr.evaluation  # noqa
+    import sympde.calculus  # noqa
+    import sympde.topology  # noqa
+
+
 def main():
     payload = json.load(open(sys.argv[1]))
-    res = []
-    for case in payload["cases"]:
-        t0 = time.time()
-        try:
-            with time_limit(240):
-                res.append(run_case(case))
-            res[-1]["secs"] = round(time.time() - t0, 2)
-        except CaseTimeout:
-            res.append({"stage": "timeout", "secs": round(time.time() - t0, 2)})
-        except Exception:  # noqa
-            res.append({"crash": traceback.format_exc()[-1500:]})
+    warm_up()
+    res = [run_forked(run_case, case, 150) for case in payload["cases"]]
     json.dump({"results": res}, open(sys.argv[2], "w"))
 
 
